@@ -219,7 +219,7 @@ func runC09(c c09Case, rng *rand.Rand, r *rep.Report) (key, msg string, stats ma
 			so.SetUpgradeTimeout(time.Second)
 			so.SetMaxHttpBufferSize(100000)
 			w := rig.NewWorld(rig.Options{Server: so})
-			defer w.Shutdown()
+			defer w.Finish()
 			canary, err := w.Connect(rig.ClientCfg{Rev: 4, Transport: "polling"})
 			if err != nil {
 				key, msg = "c09-handshake-failed", err.Error()
@@ -434,7 +434,7 @@ func runC09Spin(c c09Case, rng *rand.Rand, r *rep.Report) (key, msg string, stat
 		so := &config.ServerOptions{}
 		so.SetAllowEIO3(true)
 		w := rig.NewWorld(rig.Options{Server: so})
-		defer w.Shutdown()
+		defer w.Finish()
 		v, err := w.Connect(rig.ClientCfg{Rev: 3, Transport: "polling"})
 		if err != nil {
 			key, msg = "c09-handshake-failed", err.Error()
